@@ -1,6 +1,6 @@
 (* Comparison helpers for the C16 correspondence cases. *)
 Require Import Coq.QArith.QArith Coq.Lists.List Coq.Arith.Arith Coq.Bool.Bool Coq.ZArith.ZArith.
-Require Import OQ.Base.CaseEq OQ.Pauli.Algebra OQ.Pauli.Evolution.
+Require Import OQ.Base.CaseEq OQ.Pauli.Algebra OQ.Pauli.Evolution OQ.Pauli.EvolutionCode.
 Import ListNotations.
 
 Definition egate_eqb {P} (peq : P -> P -> bool) (a b : egate P) : bool :=
@@ -19,6 +19,11 @@ Definition term_case (re im : Q) (l : ops) (time : Q) (out : option (list (eop Q
   oeqb (eops_eqb qeqb) (evolve_term (classify re im l) time) out.
 Definition evolution_case (h : list (Q * Q * ops)) (time : Q) (steps : nat) (out : option (list (eop Q))) : bool :=
   oeqb (eops_eqb qeqb) (time_evolution (hterms h) time steps) out.
+(* the coefficients the code sees for constant terms are the real parts recorded in the case (position by position) *)
+Definition kc_of (h : list (Q * Q * ops)) : nat -> Q := fun i => fst (fst (List.nth i h (0%Q, 0%Q, []))).
+(* [out] = None when time_evolution_derivatives raised, else the returned (factor, circuit) list;
+   compared with Pauli/EvolutionCode.v's derivatives_code: constants carry +c/N, -c/N, a zero real coefficient
+   (ZeroDivisionError) or a rejected imaginary part (ValueError) gives None *)
 Definition derivative_case (h : list (Q * Q * ops)) (time : Q) (steps : nat)
-           (out : list (Q * option (list (eop sangle)))) : bool :=
-  leqb (peqb qeqb (oeqb (eops_eqb sangle_eqb))) (derivatives (hterms h) time steps) out.
+           (out : option (list (Q * option (list (eop sangle))))) : bool :=
+  oeqb (leqb (peqb qeqb (oeqb (eops_eqb sangle_eqb)))) (derivatives_code (kc_of h) (hterms h) time steps) out.
